@@ -262,7 +262,9 @@ impl Sync {
             self.stratum,
             self.leap,
             self.refid,
-            self.root_delay_exp.map(|e| e.to_string()).unwrap_or_else(|| "z".into()),
+            self.root_delay_exp
+                .map(|e| e.to_string())
+                .unwrap_or_else(|| "z".into()),
             self.var_base,
             self.var_linear,
             self.precision_exp
@@ -279,7 +281,13 @@ impl Sync {
                 "s" => out.stratum = v.parse().ok()?,
                 "l" => out.leap = v.parse().ok()?,
                 "r" => out.refid = u32::from_str_radix(v, 16).ok()?,
-                "d" => out.root_delay_exp = if v == "z" { None } else { Some(v.parse().ok()?) },
+                "d" => {
+                    out.root_delay_exp = if v == "z" {
+                        None
+                    } else {
+                        Some(v.parse().ok()?)
+                    }
+                }
                 "v" => out.var_base = v.parse().ok()?,
                 "w" => out.var_linear = v.parse().ok()?,
                 "p" => out.precision_exp = v.parse().ok()?,
@@ -302,7 +310,9 @@ pub(super) fn bloom_pattern() -> BloomFilter {
     let cookie = NtpClientCookie([9; 8]);
     let _ = remote.next_request(cookie);
     let resp = ReferenceIdResponse::new(&bytes).expect("512 byte response");
-    remote.handle_response(cookie, &resp).expect("filter transfer");
+    remote
+        .handle_response(cookie, &resp)
+        .expect("filter transfer");
     *remote.full_filter().expect("filled")
 }
 
@@ -314,7 +324,9 @@ pub(super) fn server_info(s: &Sync) -> NtpServerInfo {
                 Some(e) => NtpDuration::from_exponent(e),
                 None => NtpDuration::ZERO,
             },
-            root_variance_base_time: NtpTimestamp::from_bits((RECV_TS - (16u64 << 32)).to_be_bytes()),
+            root_variance_base_time: NtpTimestamp::from_bits(
+                (RECV_TS - (16u64 << 32)).to_be_bytes(),
+            ),
             root_variance_base: s.var_base,
             root_variance_linear: s.var_linear,
             root_variance_quadratic: 0.0,
@@ -396,10 +408,14 @@ impl Session {
         if self.alg512 { 64 } else { 32 }
     }
     pub(super) fn s2c_key(&self) -> Vec<u8> {
-        (0..self.key_len()).map(|i| 0x20u8.wrapping_add(i as u8)).collect()
+        (0..self.key_len())
+            .map(|i| 0x20u8.wrapping_add(i as u8))
+            .collect()
     }
     pub(super) fn c2s_key(&self) -> Vec<u8> {
-        (0..self.key_len()).map(|i| 0x81u8.wrapping_add(3 * i as u8)).collect()
+        (0..self.key_len())
+            .map(|i| 0x81u8.wrapping_add(3 * i as u8))
+            .collect()
     }
     pub(super) fn algorithm(&self) -> AeadAlgorithm {
         if self.alg512 {
@@ -436,7 +452,13 @@ impl Session {
 
 /// AES-SIV exactly as RFC 8915 uses it (associated data = [aad, nonce]); returns
 /// tag || ciphertext. Used by the harness so that it can choose the nonce.
-pub(super) fn siv_encrypt(alg512: bool, key: &[u8], aad: &[u8], nonce: &[u8], plaintext: &[u8]) -> Vec<u8> {
+pub(super) fn siv_encrypt(
+    alg512: bool,
+    key: &[u8],
+    aad: &[u8],
+    nonce: &[u8],
+    plaintext: &[u8],
+) -> Vec<u8> {
     if alg512 {
         let mut siv = Aes256Siv::new(aes_siv::Key::<Aes256Siv>::from_slice(key));
         siv.encrypt([aad, nonce], plaintext).expect("siv encrypt")
@@ -657,7 +679,11 @@ impl Fld {
             }
             "X" => {
                 let mut it = rest.split('.');
-                Fld::RawAuth(it.next()?.parse().ok()?, it.next()?.parse().ok()?, it.next()?.parse().ok()?)
+                Fld::RawAuth(
+                    it.next()?.parse().ok()?,
+                    it.next()?.parse().ok()?,
+                    it.next()?.parse().ok()?,
+                )
             }
             "A" => {
                 let open = rest.find('(')?;
@@ -676,7 +702,10 @@ impl Fld {
                 let fields = if inner.is_empty() {
                     vec![]
                 } else {
-                    inner.split('+').map(Fld::parse).collect::<Option<Vec<_>>>()?
+                    inner
+                        .split('+')
+                        .map(Fld::parse)
+                        .collect::<Option<Vec<_>>>()?
                 };
                 Fld::Auth(au, fields)
             }
@@ -709,7 +738,11 @@ impl Req {
             self.leap,
             self.upgrade as u8,
             self.alg512 as u8,
-            self.fields.iter().map(|f| f.code()).collect::<Vec<_>>().join(","),
+            self.fields
+                .iter()
+                .map(|f| f.code())
+                .collect::<Vec<_>>()
+                .join(","),
             self.mac
         )
     }
@@ -734,7 +767,10 @@ impl Req {
             }
         }
         if !fields.is_empty() {
-            r.fields = fields.split(',').map(Fld::parse).collect::<Option<Vec<_>>>()?;
+            r.fields = fields
+                .split(',')
+                .map(Fld::parse)
+                .collect::<Option<Vec<_>>>()?;
         }
         r.mac = mac.strip_prefix('m')?.parse().ok()?;
         Some(r)
@@ -749,11 +785,22 @@ impl Req {
 
 /// 8-byte tag, unique per (position, kind, chunk); its first 4 bytes are unique as well.
 pub(super) fn tag8(pos: u8, kind: u8, j: u8) -> [u8; 8] {
-    [0xA5, 0xC0 | (pos & 0x3F), kind, j, 0x5A, !pos, !kind, 0x3C ^ j]
+    [
+        0xA5,
+        0xC0 | (pos & 0x3F),
+        kind,
+        j,
+        0x5A,
+        !pos,
+        !kind,
+        0x3C ^ j,
+    ]
 }
 
 pub(super) fn tagged(pos: u8, kind: u8, n: usize) -> Vec<u8> {
-    (0..n).map(|k| tag8(pos, kind, (k / 8) as u8)[k % 8]).collect()
+    (0..n)
+        .map(|k| tag8(pos, kind, (k / 8) as u8)[k % 8])
+        .collect()
 }
 
 const K_UID: u8 = 1;
@@ -869,7 +916,11 @@ fn put_simple(
             let body = tagged(pos, K_UID, *n as usize);
             let (o, w) = put_field(out, ver, T_UID, &body);
             // in v4 framing the server sees the body padded to a multiple of 4
-            let seen = if ver == 5 { body } else { out[o + 4..o + w].to_vec() };
+            let seen = if ver == 5 {
+                body
+            } else {
+                out[o + 4..o + w].to_vec()
+            };
             acc.uids.push((seen, zone, o + w));
             (o, w, T_UID)
         }
@@ -926,9 +977,17 @@ fn put_simple(
             (o, w, T_PAD)
         }
         Fld::Raw(ty, n, zero) => {
-            let body = if *zero { vec![0u8; *n as usize] } else { tagged(pos, K_RAW, *n as usize) };
+            let body = if *zero {
+                vec![0u8; *n as usize]
+            } else {
+                tagged(pos, K_RAW, *n as usize)
+            };
             let (o, w) = put_field(out, ver, *ty, &body);
-            let seen: Vec<u8> = if ver == 5 { body.clone() } else { out[o + 4..o + w].to_vec() };
+            let seen: Vec<u8> = if ver == 5 {
+                body.clone()
+            } else {
+                out[o + 4..o + w].to_vec()
+            };
             match *ty {
                 T_UID => acc.uids.push((seen, zone, o + w)),
                 T_COOKIE => {
@@ -941,7 +1000,12 @@ fn put_simple(
                 T_PH => acc.cookie_like.push(seen.len()),
                 T_REFREQ if ver == 5 => {
                     if seen.len() >= 2 {
-                        acc.refreqs.push((seen.len(), u16::from_be_bytes([seen[0], seen[1]]) as usize, zone, o + w));
+                        acc.refreqs.push((
+                            seen.len(),
+                            u16::from_be_bytes([seen[0], seen[1]]) as usize,
+                            zone,
+                            o + w,
+                        ));
                     }
                 }
                 _ => {
@@ -994,7 +1058,11 @@ pub(super) fn build(r: &Req, keys: &KeyEnv) -> Built {
 
 /// Like `build`; `plain_edit` may modify the plaintext of the (first) authenticator before
 /// it is encrypted (C22: malformed but correctly authenticated encrypted parts).
-pub(super) fn build_with(r: &Req, keys: &KeyEnv, plain_edit: Option<&dyn Fn(&mut Vec<u8>)>) -> Built {
+pub(super) fn build_with(
+    r: &Req,
+    keys: &KeyEnv,
+    plain_edit: Option<&dyn Fn(&mut Vec<u8>)>,
+) -> Built {
     let sess = r.session();
     let mut out = write_header(r);
     let mut acc = Acc {
@@ -1038,7 +1106,16 @@ pub(super) fn build_with(r: &Req, keys: &KeyEnv, plain_edit: Option<&dyn Fn(&mut
                     cookies: vec![],
                 };
                 for (k, g) in inner.iter().enumerate() {
-                    put_simple(&mut plain, &mut inner_acc, g, r.ver, (16 + i * 4 + k) as u8, Zone::Enc, keys, &sess);
+                    put_simple(
+                        &mut plain,
+                        &mut inner_acc,
+                        g,
+                        r.ver,
+                        (16 + i * 4 + k) as u8,
+                        Zone::Enc,
+                        keys,
+                        &sess,
+                    );
                 }
                 if n_auth == 0 {
                     plain_len = plain.len();
@@ -1136,7 +1213,8 @@ pub(super) fn build_with(r: &Req, keys: &KeyEnv, plain_edit: Option<&dyn Fn(&mut
                 if let (Fld::Cookie(ck, _), Zone::Pre) = (other, zone) {
                     pre_cookies.push(*ck);
                 }
-                let (o, w, ty) = put_simple(&mut out, &mut acc, other, r.ver, i as u8, zone, keys, &sess);
+                let (o, w, ty) =
+                    put_simple(&mut out, &mut acc, other, r.ver, i as u8, zone, keys, &sess);
                 spans.push(Span {
                     off: o,
                     wire: w,
@@ -1265,7 +1343,9 @@ pub(super) fn alphabet(ver: u8, thorough: bool) -> Vec<Fld> {
 
 const POLLS: [u8; 7] = [6, 0, 4, 10, 17, 127, 255];
 
-pub(super) const RAW_TYPES: [u16; 8] = [T_UID, T_COOKIE, T_PH, T_DRAFT, T_PAD, T_REFREQ, T_REFRESP, T_UNKNOWN];
+pub(super) const RAW_TYPES: [u16; 8] = [
+    T_UID, T_COOKIE, T_PH, T_DRAFT, T_PAD, T_REFREQ, T_REFRESP, T_UNKNOWN,
+];
 
 /// Unaligned / hand-framed extension fields (part of G, and base set of C22):
 /// * every known field type (identifier, cookie, placeholder, draft id, padding, reference-id
@@ -1313,7 +1393,11 @@ pub(super) fn raw_requests() -> Vec<Req> {
                 }
             }
         }
-        let deltas: &[i32] = if ver == 5 { &[-4, -3, -2, -1, 0, 1, 2, 3] } else { &[-4, 0, 4] };
+        let deltas: &[i32] = if ver == 5 {
+            &[-4, -3, -2, -1, 0, 1, 2, 3]
+        } else {
+            &[-4, 0, 4]
+        };
         for nl in 0..=20u16 {
             for cl in 0..=20u16 {
                 let consistent = 4 + ((nl as i32 + 3) & !3) + cl as i32;
@@ -1469,11 +1553,17 @@ pub(super) fn walk_fields(buf: &[u8], base: usize, v5: bool) -> Result<Vec<AFiel
             return Err(format!("field at {} declares length {declared}", base + o));
         }
         if !v5 && declared % 4 != 0 {
-            return Err(format!("v4 field at {} declares length {declared}", base + o));
+            return Err(format!(
+                "v4 field at {} declares length {declared}",
+                base + o
+            ));
         }
         let wire = round4(declared);
         if o + wire > buf.len() {
-            return Err(format!("field at {} (len {declared}) overruns the datagram", base + o));
+            return Err(format!(
+                "field at {} (len {declared}) overruns the datagram",
+                base + o
+            ));
         }
         out.push(AField {
             ty,
@@ -1573,7 +1663,10 @@ pub(super) fn open_nts(ans: &Answer, s2c: &dyn Cipher) -> Result<Opened, String>
     let cl = u16::from_be_bytes([b[2], b[3]]) as usize;
     let cs = 4 + round4(nl);
     if 4 + nl > b.len() || cs + cl > b.len() {
-        return Err(format!("nonce {nl} / ciphertext {cl} do not fit the body of {}", b.len()));
+        return Err(format!(
+            "nonce {nl} / ciphertext {cl} do not fit the body of {}",
+            b.len()
+        ));
     }
     let nonce = &b[4..4 + nl];
     let ct = &b[cs..cs + cl];
@@ -1660,7 +1753,13 @@ impl Findings {
         }
     }
     /// `size` orders the findings of a class (smaller = reported first).
-    pub(super) fn report(&self, class: &str, size: usize, what: impl FnOnce() -> String, trace: impl FnOnce() -> String) {
+    pub(super) fn report(
+        &self,
+        class: &str,
+        size: usize,
+        what: impl FnOnce() -> String,
+        trace: impl FnOnce() -> String,
+    ) {
         let mut g = self.inner.lock().unwrap();
         let e = g.entry(class.to_string()).or_insert((0, vec![]));
         e.0 += 1;
@@ -1671,7 +1770,12 @@ impl Findings {
         }
     }
     pub(super) fn count(&self, class: &str) -> u64 {
-        self.inner.lock().unwrap().get(class).map(|e| e.0).unwrap_or(0)
+        self.inner
+            .lock()
+            .unwrap()
+            .get(class)
+            .map(|e| e.0)
+            .unwrap_or(0)
     }
     pub(super) fn flush(&self, ctx: &Ctx) {
         let g = self.inner.lock().unwrap();
@@ -1739,7 +1843,10 @@ fn split_top_level_args(s: &str) -> Vec<String> {
 }
 
 fn daemon_source_path() -> String {
-    format!("{}/../ntpd/src/daemon/server.rs", env!("CARGO_MANIFEST_DIR"))
+    format!(
+        "{}/../ntpd/src/daemon/server.rs",
+        env!("CARGO_MANIFEST_DIR")
+    )
 }
 
 /// Parse `self.server.handle(a, b, &buf[..LEN], &mut send[..LEN], stats)` out of the
@@ -1747,7 +1854,10 @@ fn daemon_source_path() -> String {
 fn daemon_discipline(src: &str) -> Discipline {
     // only the non-test part of the file
     let code = src.split("#[cfg(test)]").next().unwrap_or(src);
-    let Some(at) = code.find(".server.handle(").or_else(|| code.find("server.handle(")) else {
+    let Some(at) = code
+        .find(".server.handle(")
+        .or_else(|| code.find("server.handle("))
+    else {
         return Discipline::Unknown("no `server.handle(` call in the daemon".into());
     };
     let start = at + code[at..].find('(').unwrap() + 1;
@@ -1841,11 +1951,24 @@ fn c16_case(
     };
     for cut in cuts {
         let msg = &full[..cut];
-        let trace = || format!("{};{};k{};{};cut={}", tag, env.cfg.code(), env.keys.rotated as u8, req.code(), cut);
+        let trace = || {
+            format!(
+                "{};{};k{};{};cut={}",
+                tag,
+                env.cfg.code(),
+                env.keys.rotated as u8,
+                req.code(),
+                cut
+            )
+        };
         loc.inc("evaluations");
         match run_handle(server, client_ip(0), msg, daemon_buf(msg.len())) {
             Err(p) => {
-                ctx.violation("C16:panic", format!("Server::handle panicked: {p}"), trace());
+                ctx.violation(
+                    "C16:panic",
+                    format!("Server::handle panicked: {p}"),
+                    trace(),
+                );
             }
             Ok(h) => match h.out {
                 Out::Ignore => loc.inc("ignored"),
@@ -1891,8 +2014,14 @@ fn c16_case(
             {
                 if ans.len() > msg.len() {
                     loc.inc("intrinsic_longer_than_request");
-                    loc.max("intrinsic_worst_growth_bytes", (ans.len() - msg.len()) as u64);
-                    loc.max("intrinsic_worst_factor_percent", (ans.len() * 100 / msg.len().max(1)) as u64);
+                    loc.max(
+                        "intrinsic_worst_growth_bytes",
+                        (ans.len() - msg.len()) as u64,
+                    );
+                    loc.max(
+                        "intrinsic_worst_factor_percent",
+                        (ans.len() * 100 / msg.len().max(1)) as u64,
+                    );
                 } else {
                     loc.inc("intrinsic_fits");
                 }
@@ -1911,11 +2040,18 @@ fn replay(ctx: &Ctx, trace: &str) -> String {
         return format!("unparseable trace {trace:?}");
     };
     let keys = key_env(p[2] == "k1");
-    let cut: usize = p[4].trim_start_matches("cut=").parse().unwrap_or(usize::MAX);
+    let cut: usize = p[4]
+        .trim_start_matches("cut=")
+        .parse()
+        .unwrap_or(usize::MAX);
     let built = build(&req, &keys);
     let mut msg = built.bytes;
     msg.truncate(MAX_DATAGRAM.min(cut));
-    let buf_len = if p[0] == "whole" { MAX_DATAGRAM } else { msg.len() };
+    let buf_len = if p[0] == "whole" {
+        MAX_DATAGRAM
+    } else {
+        msg.len()
+    };
     let mut server = make_server(cfg, &Sync::TYPICAL, &keys.server);
     match run_handle(&mut server, client_ip(0), &msg, buf_len) {
         Err(e) => {
@@ -1926,7 +2062,11 @@ fn replay(ctx: &Ctx, trace: &str) -> String {
             Out::Ignore => format!("request {} bytes -> ignored", msg.len()),
             Out::Respond(a) => {
                 if a.len() > msg.len() {
-                    ctx.violation("C16:amplification", format!("{} > {}", a.len(), msg.len()), trace);
+                    ctx.violation(
+                        "C16:amplification",
+                        format!("{} > {}", a.len(), msg.len()),
+                        trace,
+                    );
                 }
                 format!(
                     "request {} bytes -> answer {} bytes kind {:?}",
@@ -2002,27 +2142,62 @@ fn check() {
         common::par_for_with(
             reqs.len() as u64,
             64,
-            || (Local::new(&ctx), make_server(env.cfg, &Sync::TYPICAL, &env.keys.server)),
+            || {
+                (
+                    Local::new(&ctx),
+                    make_server(env.cfg, &Sync::TYPICAL, &env.keys.server),
+                )
+            },
             |(loc, server), i| {
                 let req = &reqs[i as usize];
-                let n_sym = req.fields.iter().filter(|f| !matches!(f, Fld::Draft(true))).count();
+                let n_sym = req
+                    .fields
+                    .iter()
+                    .filter(|f| !matches!(f, Fld::Draft(true)))
+                    .count();
                 if env.cfg == Cfg::RateLimited {
                     // a fresh server per request: the first datagram of a client is never limited
                     *server = make_server(env.cfg, &Sync::TYPICAL, &env.keys.server);
                 }
-                c16_case(&ctx, loc, env, server, req, with_trunc && n_sym <= trunc_len, &daemon_buf, tag);
+                c16_case(
+                    &ctx,
+                    loc,
+                    env,
+                    server,
+                    req,
+                    with_trunc && n_sym <= trunc_len,
+                    &daemon_buf,
+                    tag,
+                );
             },
         );
         if ctx.over_budget() && ei + 1 < envs.len() {
-            ctx.cap_hit(&format!("budget reached after {} of {} environments", ei + 1, envs.len()));
+            ctx.cap_hit(&format!(
+                "budget reached after {} of {} environments",
+                ei + 1,
+                envs.len()
+            ));
             ctx.exhaustive(false);
             ctx.finish();
             return;
         }
     }
     let a = grammar(false, 0);
-    ctx.sample(format!("{} -> e.g. first requests: {}", reqs.len(), a.iter().take(3).map(|r| r.code()).collect::<Vec<_>>().join(" ; ")));
-    for r in reqs.iter().filter(|r| r.fields.len() == 3).step_by(9001).take(6) {
+    ctx.sample(format!(
+        "{} -> e.g. first requests: {}",
+        reqs.len(),
+        a.iter()
+            .take(3)
+            .map(|r| r.code())
+            .collect::<Vec<_>>()
+            .join(" ; ")
+    ));
+    for r in reqs
+        .iter()
+        .filter(|r| r.fields.len() == 3)
+        .step_by(9001)
+        .take(6)
+    {
         let k = key_env(true);
         let b = build(r, &k);
         let mut s = make_server(Cfg::Open, &Sync::TYPICAL, &k.server);
@@ -2030,7 +2205,13 @@ fn check() {
             Out::Ignore => "ignored".to_string(),
             Out::Respond(a) => format!("{} bytes", a.len()),
         });
-        ctx.sample(format!("{} ({} bytes, {:?}) -> {:?}", r.code(), b.bytes.len(), b.auth, o));
+        ctx.sample(format!(
+            "{} ({} bytes, {:?}) -> {:?}",
+            r.code(),
+            b.bytes.len(),
+            b.auth,
+            o
+        ));
     }
     ctx.set("transitions", ctx.get("evaluations"));
     ctx.set("states", ctx.get("grammar_requests"));
